@@ -213,10 +213,40 @@ def check_variant(chk, v):
             else:
                 chk.broken("TGswParams constructor: cannot compare the extra offset term 2^(%s) with the step 2^(%s)" % (sym.show(ee), sym.show(step_e)))
     adds = [t for t in touch if t["op"] == "+="]
-    if len(adds) != 1 or R(adds[0]["val"]) != P(params, "offset") and adds[0]["val"] != P(params, "offset"):
+    if len(adds) != 1:
         problems.append("the offset is not added to the input before extraction: %s" % [(t["op"], sym.show(t["val"])) for t in touch])
     elif adds[0]["line"] > d["line"]:
         problems.append("offset added after the digits are extracted")
+    else:
+        # added value = offset + e: the recomposition is trunc_step(x + e), within the step iff 0 <= e < 2^(32 - l*Bgbit)
+        extra = sym.sub(adds[0]["val"], P(params, "offset"))
+        step_x = sym.sub(I(32), sym.mul(L, B))
+
+        def extra_ok(e, facts):
+            """-> None if 0 <= e < step under facts, else a reason string; 'unknown' raises"""
+            if e == ZERO:
+                return None
+            items = sym.poly_items(e) if e[0] == "poly" else None
+            if e[0] == "cond" or (items is not None and len(items) == 1 and len(items[0][0]) == 1 and items[0][1] == 1 and items[0][0][0][0] == "cond"):
+                c_ = e if e[0] == "cond" else items[0][0][0]
+                for br, pol in ((c_[2], c_[1]), (c_[3], sym.unop("!", c_[1]))):
+                    why = extra_ok(br, facts + affine.guard_constraints([pol]))
+                    if why:
+                        return why
+                return None
+            ee = bits.pow2_exp(e)
+            if ee is None:
+                chk.broken("%s: value added to the input, %s, is not offset + a power of two" % (FN, sym.show(adds[0]["val"])[:100]))
+            fx = facts + [sym.sub(L, I(1)), sym.sub(B, I(1))]
+            if affine.prove_nonneg(ee, fx) and affine.prove_nonneg(sym.sub(sym.sub(step_x, ee), I(1)), fx):
+                return None
+            if affine.prove_nonneg(sym.sub(ee, step_x), fx):
+                return "the input is shifted by offset + 2^(%s): at least one whole precision step 2^(%s) more than the offset" % (sym.show(ee), sym.show(step_x))
+            chk.broken("%s: cannot compare the extra term 2^(%s) added to the input with the step 2^(%s)" % (FN, sym.show(ee), sym.show(step_x)))
+        if R(adds[0]["val"]) != P(params, "offset") and adds[0]["val"] != P(params, "offset"):
+            why = extra_ok(extra, [])
+            if why:
+                problems.append(why)
     chk.require(not problems, "R2", key2, where="%s:%s" % (f.file, d["line"]),
                 ok="digit = field - 2^(Bgbit-1); offset = halfBg * sum_{i<l} 2^(32-(i+1)Bgbit), added over [0,N) before extraction",
                 bad="; ".join(problems)[:500], variant=vn)
